@@ -1533,6 +1533,11 @@ class Interp:
         members = [sh for sh in cv if isinstance(sh, Ref) and sh.kind in ("coll", "dict")]
         if not members or len(members) != len(cv):
             return False
+        # a 'seen' collection that outlives the collection being filled (one result list per key, one 'seen' set for all keys) does
+        # not skip duplicates of this list: it withholds what another list already got
+        filled = [self.cells[r.key] for r in refs if isinstance(r, Ref) and r.kind in ("coll", "dict")]
+        if any(f.born - self.cells[m.key].born for f in filled for m in members):
+            return False
         a, b, c = prov(self.scalars(lv)), prov(self.scalars(self.elems(cv))), prov(self.scalars(added))
         return bool(a) and (not b or a <= b) and c <= a
 
@@ -1747,8 +1752,11 @@ class Interp:
                 left_colls = frozenset(sh for sh in a if isinstance(sh, Ref) and sh.kind == "coll")
                 self.add(r, self.elems(left_colls))
                 if isinstance(op, (ast.Sub, ast.BitAnd)):
-                    grouped = any(self.live(sc.assoc - sc.gone) for sc in self.scalars(self.elems(left_colls)))
-                    self.add_part(r, [("part", self.site(fr, node), f"elements are removed by `{norm(node, 60)}`", grouped)])
+                    own = [sc for sc in self.scalars(b)] if isinstance(op, ast.Sub) else []
+                    if not (own and all(x for sc in own for x in [self.live(sc.eids - sc.gone) & frozenset(self.loop_eids)])):
+                        # (`all - {own}` inside the iteration over `own` is 'all the others': nothing that matters is lost)
+                        grouped = any(self.live(sc.assoc - sc.gone) for sc in self.scalars(self.elems(left_colls)))
+                        self.add_part(r, [("part", self.site(fr, node), f"elements are removed by `{norm(node, 60)}`", grouped)])
             out.add(r)
         rest_a = frozenset(sh for sh in a if not (isinstance(sh, Ref) and sh.kind == "coll"))
         rest_b = frozenset(sh for sh in b if not (isinstance(sh, Ref) and sh.kind == "coll"))
@@ -2362,6 +2370,15 @@ class Interp:
             els = self.elems(V(sh))
             sig = self.key_sig(kwargs.get("key"), els, call, env, fr) if els else None
             self.cell(sh).order = ("sorted", sig) if sig else None
+            return NONE_V
+        if name in ("remove", "discard") and args:
+            # taking the current element of a running iteration out of a collection made for that very iteration (`others = set(all);
+            # others.discard(own)`) is how 'all the others' is spelled; out of a longer-lived collection it is a loss that stays
+            cell = self.cell(sh)
+            own = frozenset(x for sc in self.scalars(args[0]) for x in self.live(sc.eids - sc.gone) if x in self.loop_eids)
+            if not (own and cell.born & own):
+                grouped = any(self.live(sc.assoc - sc.gone) for sc in self.scalars(self.elems(V(sh))))
+                self.add_part(sh, [("part", self.site(fr, call), f"elements are removed by `{norm(call, 60)}`", grouped)])
             return NONE_V
         if name in ("reverse", "remove", "discard", "clear"):
             return NONE_V
